@@ -163,3 +163,25 @@ package service
 //@   callsite CollectTCPSession: arg0 == req.Username && arg1 == uint64(nr2l) && arg2 == uint64(nl2r)
 //@   callsite BidirectionalCopy: arg0 == clientConn
 //@   callsite BidirectionalCopy: arg1 == remoteConn
+
+// ---------------------------------------------------------------------------
+// Service manager (property C18): server names are unique - when the router is built every server's name maps
+// to that server's own index (two servers with one name would both have to own the entry).
+// ---------------------------------------------------------------------------
+
+//@ func (*Config).Manager
+//@   requires !isnil(sc)
+//@   loop 3 invariant forall j int :: 0 <= j && j <= rangeindex ==> has(serverIndexByName, sc.Servers[j].Name) && serverIndexByName[sc.Servers[j].Name] == j
+//@   callsite Config).Router: forall j int :: 0 <= j && j < len(sc.Servers) ==> has(arg6, sc.Servers[j].Name) && arg6[sc.Servers[j].Name] == j
+//@ func (*ClientGroupConfig).AddClientGroup
+//@   noinline
+//@ func (*ServerConfig).Initialize
+//@   noinline
+//@ func (*ServerConfig).TCPRelay
+//@   noinline
+//@ func (*ServerConfig).PostInit
+//@   noinline
+//@ func (*ClientConfig).TCPClient
+//@   noinline
+//@ func (*ClientConfig).UDPClient
+//@   noinline
